@@ -27,6 +27,7 @@ def run(ctx, rep):
         check_same(crate, rep, cfg)
         check_child_vm(crate, rep, cfg)
         check_priority(crate, rep, cfg)
+        check_types(crate, rep, cfg)
         check_bind(crate, rep, cfg)
         check_getter(crate, rep, cfg)
 
@@ -181,6 +182,50 @@ def check_same(crate, rep, cfg):
     key = "C05.SAME:result-safe"
     (rep.ok if n >= 2 else rep.bad)("C05.SAME", key, interp.where(0), "the rendered component text is pushed as a safe string at %d site(s) (not escaped a second time)" % n
                                     + ("" if n >= 2 else " — VIOLATED (floor 2)"))
+
+
+KIND_PREDICATES = {"is_string", "is_bool", "is_number", "is_map", "is_array", "is_bytes", "is_none", "is_undefined", "kind"}
+TYPE_KINDS = {"Integer": {"I64", "U64", "I128", "U128"}, "Float": {"F64"}}
+
+
+def check_types(crate, rep, cfg):
+    """C05.TYPE — "a value not matching a declared or inferred type is rejected": Type::matches_value decides by the value's KIND alone
+    (kind predicates / a test of `kind()`), never through an accessor that converts (`as_f64` also answers for integers, `as_i128` for
+    whole floats in some versions); `integer` is exactly the four integer kinds and `float` exactly F64."""
+    b = crate.one("parsing::ast::Type::matches_value")
+    rep.analysed(b)
+    ef = EdgeFacts(b, crate)
+    called = sorted({callee_def(t).rsplit("::", 1)[-1] for bb, t in b.calls() if "value::Value" in callee_def(t)})
+    conv = [c for c in called if c not in KIND_PREDICATES]
+    rep.add("C05.TYPE", "C05.TYPE:matches_value:by-kind-only", not conv and bool(called), b.where(0), "Type::matches_value asks the value only for its kind (%s)" % called
+            + ("" if not conv and called else " — VIOLATED: converting accessors %s" % conv))
+    # per declared type, the kinds accepted through a `kind()` test
+    arms = {}
+    for sb in sorted(b.reachable):
+        if b.term(sb)["k"] != "switch":
+            continue
+        for tgt, fl in ef.facts_for_switch(sb).items():
+            for f in fl:
+                if f[0] == "variant" and f[1].endswith("ast::Type") and f[4] and len(f[3]) == 1 and tgt != sb:
+                    arms[next(iter(f[3]))] = {x for x in b.reach_from(tgt) if b.dominates(tgt, x)}
+    for ty, want in TYPE_KINDS.items():
+        reg = arms.get(ty, set())
+        acc = set()
+        for sb in sorted(reg):
+            if b.term(sb)["k"] != "switch":
+                continue
+            for tgt, fl in ef.facts_for_switch(sb).items():
+                for f in fl:
+                    if f[0] == "variant" and f[1].endswith("ValueKind") and f[4]:
+                        vals = set()
+                        for bb, idx, st in b.stmts(sorted(x for x in b.reach_from(tgt, removed_blocks=frozenset([sb])) if x in reg)):
+                            if idx != "t" and st.get("k") == "assign" and st["pl"]["l"] == 0 and not st["pl"]["p"] and st["rv"]["k"] == "use" and st["rv"]["op"]["k"] == "const":
+                                vals.add(str(st["rv"]["op"].get("v")))
+                        if vals == {"1"}:
+                            acc |= set(f[3])
+        ok = acc == want
+        rep.add("C05.TYPE", "C05.TYPE:matches_value:%s" % ty, ok, b.where(min(reg)) if reg else b.where(0), "type `%s` accepts exactly the kinds %s" % (ty.lower(), sorted(want))
+                + ("" if ok else " — VIOLATED: accepts %s" % (sorted(acc) or "something not decided by a kind test")))
 
 
 def check_priority(crate, rep, cfg):
